@@ -684,7 +684,7 @@ def jobs(tier, seed):
                  dict(check='CheckWeakECPrivateKey',
                       curve_ids=[0, 2, 7, 20] if not thorough else
                       [0, 1, 2, 5, 7, 19, 20, 77]), timeout=3000, cost=10))
-  for cid in ([2] if not thorough else [2, 6]):
+  for cid in [2]:
     out.append(Job('ec_small_difference_c%d' % cid, ec_small_difference,
                    dict(cid=cid, max_diff=3), timeout=3000, cost=60))
   for check in ('CheckNonceMSB', 'CheckNonceCommonPostfix',
